@@ -279,7 +279,23 @@ func checkC11(p *Prog, res *Result, tier string) {
 				// batch has staged so far - an iterator, or the Get of a snapshot obtained from the transaction, is neither
 				c5 := fmt.Sprintf("%s.%s: condition read through the transaction's own Get", short, op.name)
 				var own, foreign ssa.CallInstruction
-				for _, g := range withAnon(f) {
+				// the operation, its literals, and the helpers of the adapter they call (a shared read helper)
+				scope := withAnon(f)
+				seenFn := map[*ssa.Function]bool{}
+				for _, g := range scope {
+					seenFn[g] = true
+				}
+				for d := 0; d < 2; d++ {
+					for _, g := range append([]*ssa.Function{}, scope...) {
+						for _, c := range callsIn(g) {
+							if sc := c.Common().StaticCallee(); sc != nil && sc.Blocks != nil && sc.Pkg == f.Pkg && !seenFn[sc] {
+								seenFn[sc] = true
+								scope = append(scope, withAnon(sc)...)
+							}
+						}
+					}
+				}
+				for _, g := range scope {
 					for _, c := range callsIn(g) {
 						if !isEngineCall(c, "Get") || len(c.Common().Args) == 0 {
 							continue
@@ -1643,7 +1659,8 @@ func checkC12(p *Prog, res *Result, tier string) {
 	}
 	// R6: the substitute for native TTL on the engine that has none removes what native TTL would remove (C17-R2/R3)
 	for _, o := range p.subResult("C17", tier).Obls {
-		if (o.Rule == "C17-R2" && strings.Contains(o.Construct, "age guard")) || o.Rule == "C17-R3" {
+		// (R10 / R11: the emulation's clock - the compaction marks - is kept as the engines with native TTL keep theirs)
+		if (o.Rule == "C17-R2" && strings.Contains(o.Construct, "age guard")) || o.Rule == "C17-R3" || o.Rule == "C17-R10" || o.Rule == "C17-R11" {
 			res.add("C12-R6", o.Rule+" "+o.Construct, o.Status, o.Pos, o.Detail)
 		}
 	}
